@@ -160,6 +160,9 @@ type RunCtx struct {
 	FragNames  []string
 	MutateArgs bool
 	LogEvents  bool
+	// EchoArgs: String leaves answer their source, field AND the arguments they received (C12: the response
+	// then depends on the arguments, so a resolver that is handed another call's arguments changes the bytes)
+	EchoArgs bool
 }
 
 func samePointer(a, b interface{}) bool {
@@ -517,6 +520,22 @@ func isTypeOfFor(name string, enabled bool) graphql.IsTypeOfFn {
 	}
 }
 
+// Resolve makes every source value a graphql.FieldResolver: the fields of a type built without Resolve functions
+// ("selfres") are resolved by their source, through DefaultResolveFn, with the same table-driven resolver.
+func (s *Src) Resolve(p graphql.ResolveParams) (interface{}, error) {
+	rc := RunOf(p.Context)
+	if rc == nil || rc.Built == nil || p.Info.ParentType == nil {
+		return nil, errors.New("harness: a source was asked to resolve a field without a run context")
+	}
+	tn := p.Info.ParentType.Name()
+	for _, fd := range rc.Built.Abs.Types[tn].Fields {
+		if fd.Name == p.Info.FieldName {
+			return rc.Built.resolver(tn, fd)(p)
+		}
+	}
+	return nil, errors.New("harness: " + tn + " has no field " + p.Info.FieldName)
+}
+
 func (b *Built) resolver(tn string, fd FieldDef) graphql.FieldResolveFn {
 	return func(p graphql.ResolveParams) (interface{}, error) {
 		rc := RunOf(p.Context)
@@ -574,6 +593,9 @@ func (b *Built) resolver(tn string, fd FieldDef) graphql.FieldResolveFn {
 		nat := func() interface{} { return b.naturalValue(fd.Type, srcTag+"."+fd.Name, fd.Name, oc) }
 		switch oc.K {
 		case "val":
+			if rc.EchoArgs && len(fd.Type.W) == 0 && fd.Type.N == "String" {
+				return srcTag + "." + fd.Name + "|" + Value{K: "obj", Fields: call.Args}.Canon(), nil
+			}
 			return nat(), nil
 		case "nil":
 			return nil, nil
@@ -773,7 +795,7 @@ func Build(s *Schema) (*Built, error) {
 					out := graphql.Fields{}
 					for _, f := range tr.Fields {
 						fld := &graphql.Field{Type: wrap(f.Type).(graphql.Output), Args: argCfg(f.Args)}
-						if !tr.Plain {
+						if !tr.Plain && !tr.SelfRes {
 							fld.Resolve = b.resolver(name, f)
 						}
 						out[f.Name] = fld
